@@ -110,6 +110,78 @@ fn burst_with_run_dropped_in_a_blocked_write(second_qos: u8) -> Option<Failure> 
     None
 }
 
+/// The client announced its own Maximum Packet Size M in CONNECT; the broker sends a message of
+/// exactly M bytes followed by a 1000-byte one. Delivered one packet per read, or with the first
+/// read ending `cut` bytes into the large packet and everything else in the next read: the same
+/// stream items either way.
+fn own_limit_and_a_cut_inside_a_maximal_packet(m: u32, cut: usize) -> Option<Failure> {
+    use super::common::*;
+    use crate::api::*;
+    use crate::refcodec as rc;
+    use crate::world::World;
+    let plan = WritePlan::default();
+    let mut seen = vec![];
+    for per_packet in [true, false] {
+        let mut w = World::new();
+        let spec = ConnectSpec { maximum_packet_size: Some(m), ..Default::default() };
+        if connect_and_run(&mut w, spec, &default_connack(), &plan).is_err() {
+            return None;
+        }
+        let mut tr = Tracker::new();
+        tr.skip_existing(&mut w);
+        let s = w.start_op(0, OpSpec::Subscribe(tagged_subscribe(0, 1)))?;
+        settle(&mut w, &plan, true);
+        tr.update(&mut w);
+        let (spid, sid) = (tr.pid(s)?, tr.sub_id(s)?);
+        feed_packet(&mut w, &rc::Packet::Suback(rc::AckList { pid: spid, reasons: vec![0], ..Default::default() }), &rc::Form::canonical());
+        settle(&mut w, &plan, true);
+        let stream = w.make_stream(s)?;
+        let msg = |n: usize, tag: u8| rc::encode(&rc::Packet::Publish(rc::Publish { qos: 0, topic: "c03/m".into(), payload: vec![tag; n], subscription_ids: vec![sid], ..Default::default() }), &rc::Form::canonical());
+        // size the first message to exactly M bytes
+        let mut n = m as usize - 16;
+        for _ in 0..4 {
+            let len = msg(n, 1).len();
+            if len == m as usize {
+                break;
+            }
+            n = (n + m as usize).saturating_sub(len);
+        }
+        let (a, b) = (msg(n, 1), msg(1000 - 16, 2));
+        if a.len() != m as usize {
+            return None;
+        }
+        w.tick();
+        if per_packet {
+            w.reader.feed(a);
+            settle(&mut w, &plan, true);
+            w.reader.feed(b);
+        } else {
+            let cut = cut.min(a.len() - 1).max(1);
+            w.reader.feed(a[..cut].to_vec());
+            settle(&mut w, &plan, true);
+            let mut rest = a[cut..].to_vec();
+            rest.extend(b);
+            w.reader.feed(rest);
+        }
+        settle(&mut w, &plan, true);
+        if let Some(p) = first_panic(&w) {
+            return Some(Failure { sig: format!("PANIC/{}", panic_sig(&p)), msg: p });
+        }
+        w.drain_stream(stream);
+        seen.push((w.streams[stream].items.len(), w.reader.unread(), w.run_result.clone()));
+    }
+    if seen[0] != seen[1] {
+        return Some(Failure {
+            sig: "C03/observables-depend-on-chunking/own-maximum-packet-size".into(),
+            msg: format!(
+                "CONNECT announced Maximum Packet Size {m}; a {m}-byte message then a 1000-byte one: one packet per read -> {} stream items ({} bytes unread, run {:?}); first read ending {cut} bytes into the large message, the rest in one read -> {} items ({} bytes unread, run {:?})",
+                seen[0].0, seen[0].1, seen[0].2, seen[1].0, seen[1].1, seen[1].2
+            ),
+        });
+    }
+    None
+}
+
 fn transient_error_then_run_again(cut: usize, kind: usize) -> Option<Failure> {
     use super::common::*;
     use crate::api::*;
@@ -417,6 +489,13 @@ impl Property for C03 {
                 return o;
             }
             o.class("burst-with-run-dropped-in-a-blocked-write");
+            let m = [2048u32, 4096, 16_384, 65_536][(h / 1260 % 4) as usize];
+            let cut = [1usize, 2, 3, 511, 512, 513, m as usize / 2 - 100, m as usize / 2, m as usize / 2 + 600, m as usize - 600, m as usize - 512, m as usize - 1][(h / 5040 % 12) as usize];
+            if let Some(f) = own_limit_and_a_cut_inside_a_maximal_packet(m, cut) {
+                o.fail = Some(f);
+                return o;
+            }
+            o.class("own-maximum-packet-size-and-a-cut-inside-a-maximal-packet");
         }
         let cfg_ref = SimCfg::default();
         let reference = run(&scenario(case, ChunkPlan::PerPacket, true), &cfg_ref);
